@@ -620,13 +620,13 @@ Definition is_container (ct : bytes * list (bytes * rule)) : Prop :=
 Lemma subtables_containers : Forall is_container subtables.
 Proof.
   unfold subtables. repeat constructor; unfold is_container; cbn [fst snd].
-  - exists (wrong_args "config"), config_unknown. vm_compute. reflexivity.
-  - exists (tx "ACL requires a subcommand"), acl_unknown. vm_compute. reflexivity.
-  - exists (tx "SCRIPT requires a subcommand"), script_unknown. vm_compute. reflexivity.
-  - exists (wrong_args "function"), (named_unknown "FUNCTION"). vm_compute. reflexivity.
-  - exists (wrong_args "client"), (named_unknown "CLIENT"). vm_compute. reflexivity.
-  - exists (wrong_args "object"), (named_unknown "OBJECT"). vm_compute. reflexivity.
-  - exists (wrong_args "debug"), debug_unknown. vm_compute. reflexivity.
+  - exists (wrong_args "config"), config_unknown. reflexivity.
+  - exists (tx "ACL requires a subcommand"), acl_unknown. reflexivity.
+  - exists (tx "SCRIPT requires a subcommand"), script_unknown. reflexivity.
+  - exists (wrong_args "function"), (named_unknown "FUNCTION"). reflexivity.
+  - exists (wrong_args "client"), (named_unknown "CLIENT"). reflexivity.
+  - exists (wrong_args "object"), (named_unknown "OBJECT"). reflexivity.
+  - exists (wrong_args "debug"), debug_unknown. reflexivity.
 Qed.
 Local Opaque grammar.
 
@@ -690,7 +690,8 @@ Section Casing.
     intros HF HC HU. unfold canonical in HC. unfold unparse_k, unparse_tokens in HU. rewrite HF in *.
     apply andb_true_iff in HC as [Hp Ht]. injection HU as <-. rewrite tokens_map.
     destruct (find_tag_In _ _ _ _ _ HF) as [e HI].
-    rewrite <- (firstn_skipn (List.length pre) a) at 2.
+    replace (Cmd tag a) with (Cmd tag (firstn (List.length pre) a ++ skipn (List.length pre) a))
+      by (now rewrite firstn_skipn).
     unfold simple_index in HI. apply in_app_or in HI as [HI|HI].
     - apply simple_of_In in HI as (n & -> & HI). cbn [app map]. unfold parse_cmd. cbn [map].
       rewrite (parse_top _ _ _ HI). now apply run_simple.
